@@ -1,3 +1,5 @@
+//go:build verifshim
+
 package main
 
 import (
